@@ -56,7 +56,7 @@ def run(ctx):
     ctx.cov["traces_validated_against_impl"] = ctx.counts.get("lcd_compared", 0)
     ctx.cov["rule"] = "kernels (shipped + generated) x rotation offsets; non-trivial = kernels with at least one loop-carried cycle"
     ctx.log("%d kernels, %d rotations" % (ctx.counts.get("kernels", 0), ctx.counts.get("rotations", 0)))
-    return ctx.finish(level="translation_validation", trusted=dgcheck.TRUSTED)
+    return ctx.finish(trusted=dgcheck.TRUSTED)
 
 
 def replay(ctx, path):
